@@ -16,7 +16,7 @@ from . import common as C
 THEOREMS = [
     "chan_shape", "chan_shape_design_counterexample", "fifo_conservation", "scan_ready_sound", "pick_in_range",
     "select_choice_ready", "scan_default", "select_default", "close_semantics", "closed_later_ops",
-    "nil_never_proceeds", "no_lost_wakeup", "wake_removes_all_entries", "blocked_not_possible", "awake_count",
+    "recv_delivers_queued_value", "send_value_snapshot", "nil_never_proceeds", "no_lost_wakeup", "wake_removes_all_entries", "blocked_not_possible", "awake_count",
     "deadlock_report_iff",
 ]
 
@@ -633,6 +633,9 @@ def gen_snapshot_scenario(rng, idx, force=None):
     kind = rng.choice(["reuse-buffered", "rendezvous-receiver-first", "rendezvous-sender-first", "full-buffer-blocked"])
     if form == "plain" and rng.random() < 0.7:
         form = rng.choice([f for f in SNAP_SENDS if f != "plain"])
+    # deterministic by construction in Go too: a select with default may only be used where the send is surely ready
+    if form == "select-default" and kind == "full-buffer-blocked":
+        kind = "reuse-buffered"
     decl = "\tvar nc chan %s\n\tnever := make(chan int)\n\tfull := make(chan %s, 1)\n\tfull <- %s{}\n\t_, _, _ = nc, never, full\n" % (T, T, T)
     src = "func snap%d() {\n" % idx
     if kind == "reuse-buffered":
@@ -642,7 +645,7 @@ def gen_snapshot_scenario(rng, idx, force=None):
         src += SNAP_SENDS[form] % {"i": "\t"}
         src += "\t}\n" + snap_set("m", leaves, 900) + "\tclose(ch)\n\tfor v := range ch {\n" + snap_print("got", "v", leaves, "\t\t") + "\t}\n"
     elif kind in ("rendezvous-receiver-first", "rendezvous-sender-first"):
-        cap = rng.choice([0, 0, 1])
+        cap = 1 if form == "select-default" else rng.choice([0, 0, 1])
         src += "\tch := make(chan %s, %d)\n%s\tack := make(chan bool)\n\tafter := make(chan int)\n\tstarted := make(chan bool, 1)\n" % (T, cap, decl)
         src += "\tgo func() {\n\t\tvar m %s\n" % T + snap_set("m", leaves, 1, "\t\t") + "\t\tstarted <- true\n"
         src += SNAP_SENDS[form] % {"i": "\t"}
